@@ -299,6 +299,12 @@ def _child_restart(plan, src, dest, upto_round):
         mir.observer.start = lambda: None
         report({"ev": "phase", "ph": "mirror", "r": upto_round})
         report.sync("mirror")
+        import digital_rf
+
+        lst = digital_rf.list_drf.lsdrf(src, starttime=mir.starttime, endtime=mir.endtime,
+                                        include_drf=plan["include_drf"], include_dmd=plan["include_dmd"],
+                                        include_drf_properties=False, include_dmd_properties=False)
+        report({"ev": "start_listing", "files": [os.path.relpath(p_, src) for p_ in lst]})
         mir.start()
         report({"ev": "existing_replayed"})
         roles = {}
@@ -553,6 +559,11 @@ def run_plan(prop, plan):
                         # the metadata ringbuffer (count=1) is about to delete a source metadata file:
                         # has its current content been copied?
                         rel = os.path.relpath(ev.p1, "src")
+                        if not selected(rel) and rel not in start_listed:
+                            # a source metadata file outside the mirror's kinds / window is none of the mirror's
+                            # business: it is neither copied nor may it be removed
+                            viol("unselected_source_file_deleted", "the mirror deletes %s from the source although it is "
+                                 "outside the selected kinds / window" % rel, md=True)
                         sp, dp = os.path.join(src, rel), os.path.join(dest, rel)
                         if os.path.exists(sp) and not (os.path.exists(dp) and K.file_sha(dp) == K.file_sha(sp)):
                             if rel in given_to_copy and given_to_copy[rel] >= modified_round.get(rel, 0):
